@@ -53,6 +53,8 @@ func init() {
 			{ID: "C04.j", Title: "STAGED-COMPLETE", Template: "T4+T6", MinInst: 7,
 				Rule: "every uploadAction built by the sequencer is appended to the slice serialised by marshalStagedUploads, and the only direct Backend.Upload calls of the sequencer are the staging bundle and the checkpoint",
 				Run:  c04j},
+			{ID: "C04.l", Title: "S3-PUT", Template: "T6+T2", MinInst: 1,
+				Rule: "the S3 backend's PutObject carries the configured bucket, keyPrefix + key, the data given and its length, and Content-Encoding gzip exactly on the opts.Compressed edge", Run: c04l},
 			{ID: "C04.g", Title: "CONSTANTS", Template: "T5", MinInst: 1,
 				Rule: "TileHeight = 8 = torchwood.TileHeight, TileWidth = 1 << TileHeight", Run: c04g},
 		},
@@ -1396,6 +1398,114 @@ func c04j(c *Ctx) {
 				continue
 			}
 			c.Bad(inst, s.Pos(), "the round writes an object directly instead of through the staging bundle (applyStagedUploads): a crash after the lock commit loses it, and LoadLog cannot recreate it")
+		}
+	}
+}
+
+// ---------------------------------------------------------------------------
+// C04.l S3-PUT: the S3 backend stores the given bytes under the given key with
+// the encoding the options prescribe.
+
+func c04l(c *Ctx) {
+	f := c.Fn("ctlog.(*S3Backend).Upload")
+	if f == nil {
+		return
+	}
+	c.touch(f)
+	info := f.Info()
+	recv := f.recvObj()
+	keyP, dataP, optsP := f.paramObj("key"), f.paramObj("data"), f.paramObj("opts")
+	var lits []*ast.CompositeLit
+	ast.Inspect(f.Body, func(n ast.Node) bool {
+		if cl, ok := n.(*ast.CompositeLit); ok {
+			if tv, ok := info.Types[cl]; ok && namedIs(tv.Type, "github.com/aws/aws-sdk-go-v2/service/s3", "PutObjectInput") {
+				lits = append(lits, cl)
+			}
+		}
+		return true
+	})
+	if len(lits) == 0 || keyP == nil || dataP == nil || optsP == nil {
+		c.Unk(f.Name, "PutObjectInput literal / parameters not found")
+		return
+	}
+	// unwrap aws.String(x) / aws.Int64(x) / bytes.NewReader(x)
+	unwrap := func(e ast.Expr) ast.Expr {
+		for {
+			call, ok := ast.Unparen(e).(*ast.CallExpr)
+			if !ok || len(call.Args) != 1 {
+				return ast.Unparen(e)
+			}
+			if tv, ok := info.Types[call.Fun]; ok && tv.IsType() {
+				e = call.Args[0]
+				continue
+			}
+			fn, ok := calleeObj(info, call).(*types.Func)
+			if !ok || fn.Pkg() == nil {
+				return ast.Unparen(e)
+			}
+			switch fn.Pkg().Path() + "." + fn.Name() {
+			case "github.com/aws/aws-sdk-go-v2/aws.String", "github.com/aws/aws-sdk-go-v2/aws.Int64", "bytes.NewReader":
+				e = call.Args[0]
+			default:
+				return ast.Unparen(e)
+			}
+		}
+	}
+	isRecvField := func(e ast.Expr, name string) bool {
+		r, p, ok := fieldPath(info, e)
+		return ok && r == recv && len(p) == 1 && p[0] == name
+	}
+	g := f.Graph()
+	optEdge := func(field string) map[Edge]bool {
+		return g.EdgesImplying(func(a Atom) bool {
+			r, p, ok := fieldPath(info, a.E)
+			return ok && a.Val && r == optsP && len(p) == 1 && p[0] == field
+		})
+	}
+	for i, cl := range lits {
+		inst := fmt.Sprintf("%s PutObject #%d", f.Name, i+1)
+		var p []string
+		if k, ok := unwrap(compositeField(info, cl, "Key", -1)).(*ast.BinaryExpr); !ok || k.Op != token.ADD || !isRecvField(k.X, "keyPrefix") || objOf(info, k.Y) != keyP {
+			p = append(p, "Key is not the configured prefix followed by the key given")
+		}
+		if b := unwrap(compositeField(info, cl, "Body", -1)); objOf(info, b) != dataP {
+			p = append(p, "Body is not the data given")
+		}
+		if l, ok := unwrap(compositeField(info, cl, "ContentLength", -1)).(*ast.CallExpr); !ok || !isBuiltinCall(info, l, "len") || objOf(info, l.Args[0]) != dataP {
+			p = append(p, "ContentLength is not len(data)")
+		}
+		if !isRecvField(unwrap(compositeField(info, cl, "Bucket", -1)), "bucket") {
+			p = append(p, "Bucket is not the configured bucket")
+		}
+		// Content-Encoding: a variable that is "gzip" exactly under opts.Compressed
+		ce := objOf(info, compositeField(info, cl, "ContentEncoding", -1))
+		okCE := false
+		if ce != nil {
+			for _, d := range f.Defs(ce) {
+				if d.Kind != DefAssign || d.Rhs == nil {
+					continue
+				}
+				if s, isS := constString(info, unwrap(d.Rhs)); isS && s == "gzip" {
+					site := f.Find(func(n ast.Node) bool { return n == d.Node })
+					comp := optEdge("Compressed")
+					if len(site) == 1 && len(liveEdges(g, comp)) > 0 {
+						if pt, _ := g.ReachableFromEntry(Cut{Edges: comp}, atSite(site[0])); pt == nil {
+							okCE = true
+						}
+					}
+				} else if !isNilIdent(info, d.Rhs) {
+					okCE = false
+					p = append(p, "Content-Encoding can be something other than gzip")
+				}
+			}
+		}
+		if !okCE {
+			p = append(p, "Content-Encoding is not gzip exactly when the options say the bytes are compressed")
+		}
+		if len(p) > 0 {
+			c.Bad(inst, f.Pos(cl), strings.Join(p, "; "))
+		} else {
+			c.add(Result{Instance: inst, Verdict: Discharged, Evals: 5, Sites: []string{f.Pos(cl)}, Detail: "Bucket/Key/Body/ContentLength are the configured bucket, prefix+key, data, len(data); Content-Encoding gzip iff opts.Compressed", Witnesses: f.WitEdges(optEdge("Compressed"))})
 		}
 	}
 }
